@@ -4,6 +4,7 @@ package main
 // what reservoir hands to it is captured for the harness.
 
 import (
+	"net"
 	"go/types"
 
 	"golang.org/x/tools/go/ssa"
@@ -39,7 +40,17 @@ func addCrypto(m map[string]Intrinsic) {
 		return TupleV{newOpaque(vm, fn, 0), IfaceV{}}
 	}
 	m["net.ParseIP"] = func(vm *VM, fn *ssa.Function, args []Value) Value {
-		// the textual IP grammar is not encoded: nil or an opaque 16-byte address
+		// a concrete text is parsed for real; for a symbolic one the textual IP grammar is not
+		// encoded: nil or an opaque 16-byte address
+		if sv, ok := args[0].(StrV); ok && !sv.Sym && !sv.Opaque() {
+			ip := net.ParseIP(sv.C)
+			if ip == nil {
+				vm.P.env["c11.isip"] = tFalse
+				return SliceV{}
+			}
+			vm.P.env["c11.isip"] = tTrue
+			return vm.byteSliceFromStr(mkStr(string(ip)))
+		}
 		if vm.chooseLogged(2) == 0 {
 			vm.P.env["c11.isip"] = tFalse
 			return SliceV{}
